@@ -17,7 +17,14 @@ import (
 	"time"
 )
 
-const VerifDir = "/verif"
+// VerifDir is the directory that holds evidence/, replays/, known_findings.txt and corpus.json
+// (the directory of the check script; /verif unless VERIF_DIR says otherwise).
+var VerifDir = func() string {
+	if d := os.Getenv("VERIF_DIR"); d != "" {
+		return d
+	}
+	return "/verif"
+}()
 
 // ReplayFile is the on-disk format of a violation report.
 type ReplayFile struct {
